@@ -58,7 +58,7 @@ fn check_e1102_multiple_pickups_deliveries_demand(ctx: &ValidationContext) -> Re
     let ids = ctx
         .jobs()
         .filter(|job| has_tasks(&job.pickups) && has_tasks(&job.deliveries))
-        .filter(|job| get_demand(&job.pickups) - get_demand(&job.deliveries) != MultiDimLoad::default())
+        .filter(|job| (get_demand(&job.pickups) - get_demand(&job.deliveries)).load.iter().any(|value| *value != 0))
         .map(|job| job.id.clone())
         .collect::<Vec<_>>();
 
